@@ -285,6 +285,20 @@ func (am *Machine) writeErrorRequestToOperation(o *client.Operation, handlerErro
 	if err != nil {
 		return fmt.Errorf("failed to generate fsm request: %w", err)
 	}
+	if fsm.State(o.Type) == signing_proposal_fsm.StateSigningAwaitPartialSigns {
+		// a signing error report names its batch: it may reach the board when a later batch is collected
+		var batch struct{ BatchID string }
+		_ = json.Unmarshal(o.Payload, &batch)
+		reqBz, err = json.Marshal(requests.SignatureProposalConfirmationErrorRequest{
+			Error:         req.Error,
+			ParticipantId: req.ParticipantId,
+			CreatedAt:     req.CreatedAt,
+			BatchID:       batch.BatchID,
+		})
+		if err != nil {
+			return fmt.Errorf("failed to generate fsm request: %w", err)
+		}
+	}
 	o.Event = errorEvent
 	o.ResultMsgs = append(o.ResultMsgs, createMessage(*o, reqBz))
 	return nil
